@@ -47,6 +47,10 @@ def main():
             continue
         mf = os.path.join(os.path.dirname(d), 'meta.json'); meta = json.load(open(mf))
         checks = sorted({k.split('/')[0] for k in meta.get('checks_run', {})} | {meta['property']})
+        if os.environ.get('RESEED_MINIMAL'):
+            # the property's own check if it caught the change last time, else the first check that did, plus the own one
+            cb = meta.get('caught_by') or sorted({k.split('/')[0] for k, r in meta.get('checks_run', {}).items() if r.get('caught')})
+            checks = [meta['property']] if meta['property'] in cb or not cb else [cb[0], meta['property']]
         res = run_checks(d, checks, tier)
         runs = meta.get('checks_run', {}); runs.update({'%s/%s' % (c, tier): r for c, r in res.items()}); meta['checks_run'] = runs
         meta['caught_by'] = sorted(c for c, r in res.items() if r['caught'])
